@@ -51,10 +51,11 @@ def ladder(override=None, transport=None, content=None, parent=None):
     return 'utf-8', 'default'
 
 
-def chain(override, top_content, levels):
-    """levels: list of (transport | None, content | None) for the fetched sheets, outermost first.
-    Returns [(encoding, rung)] for the top sheet followed by every level."""
-    out = [ladder(override, None, top_content, None)]
+def chain(override, top_transport, top_content, levels):
+    """top_transport / top_content: what is known about the top sheet itself (a transport charset exists only
+    when it was fetched from a URL).  levels: list of (transport | None, content | None) for the imported
+    sheets, outermost first.  Returns [(encoding, rung)] for the top sheet followed by every level."""
+    out = [ladder(override, top_transport, top_content, None)]
     for transport, content in levels:
         penc, prung = out[-1]
         out.append(ladder(override, transport, content, None if prung == 'default' else penc))
